@@ -57,6 +57,14 @@ func (data UnbondDataV3) basicCheck(tx *Transaction, context *state.CheckState) 
 
 	stake := context.Candidates().GetStakeValueOfAddress(data.PubKey, sender, data.Coin)
 
+	if stake == nil && wlStake.Sign() != 1 {
+		return &Response{
+			Code: code.StakeNotFound,
+			Log:  "Stake of current user not found",
+			Info: EncodeError(code.NewStakeNotFound(data.PubKey.String(), sender.String(), data.Coin.String(), context.Coins().GetCoin(data.Coin).GetFullSymbol())),
+		}
+	}
+
 	if stake != nil && stake.Sign() == 1 {
 		wlStake.Add(wlStake, stake)
 	} else if wlStake.Cmp(data.Value) < 0 {
